@@ -21,6 +21,8 @@ def run(chk):
                      6 if thorough else 5, 2 if thorough else 1, chars=("/", "1", "0", "a", "_"), only=PAR)
     if thorough:
         c01.run_instance(chk, "params-pairs", pool[::2], 5, 2, only=PAR)
+    from . import c08
+    c08.redispatch(chk, {"log", "crash"})   # a static route reached through HandleContext exposes no parameters
     chk.exhaustive = True
     c01.recorded(chk, 300 if thorough else 30)
 
